@@ -1,2 +1,20 @@
-(* C08 - theorems follow in this commit series *)
-From TW Require Import Bytes.
+(* C08 - lexing and parsing terminate.  PARTIAL: the theorem covers the lexer (NextToken always
+   returns from every lexer state); termination of the parser model within its fuel bound and the
+   program-or-error contract are decided by the correspondence and oracle runs (see DESIGN.md). *)
+From TW Require Import Bytes GenToken Lexer LexTotal GenTie.
+
+Theorem C08_next_token_always_returns l : nextTok l <> None.
+Proof. exact (nextTok_total l). Qed.
+Print Assumptions C08_next_token_always_returns.
+
+Theorem C08_next_token_fuel_bound fuel l :
+  (List.length (rest l) < fuel)%nat -> nextToken fuel l <> None.
+Proof. exact (nextToken_total fuel l). Qed.
+Print Assumptions C08_next_token_fuel_bound.
+
+(* the parser's loop guards are the ones read from parser.go: a block ends at @end, EOF or ILLEGAL *)
+Theorem C08_block_loop_sees_eof_and_illegal :
+  GenParser.block_guard_tokens = [T_END; T_EOF; T_ILLEGAL] /\
+  GenParser.block_break_tokens = [T_ELSE; T_ELSE_IF; T_END].
+Proof. exact block_tokens_tied. Qed.
+Print Assumptions C08_block_loop_sees_eof_and_illegal.
